@@ -363,9 +363,11 @@ def witnesses_layout(tier, seed, with_org=True):
 LAYOUT_ASSUME = [
     'segment creation by .org/.cseg/.dseg/.eseg (Directive::parse) and the parser are not under contract: bound by the layout witnesses '
     '(generated programs with interleaved segments, .org gaps, odd .db lists, label tables; reference model spec/layout_sem.py)',
-    'pass 2 precondition seg_wf2/segs_wf2 is what pass 1 proves (#prefix_ok #out_items #segs_ok #segs_out #end_limit) plus: no Operation::Custom '
-    'reaches pass 2 (pass 0 expands or rejects every macro call) and every device memory is below 2^29 units (all table rows, checked in C12); '
-    'the composition pass1 -> pass2 is by matching these clauses, not a single machine-checked theorem over build_from_parsed',
+    'composition pass 1 -> pass 2: unit LINK proves pass1_post (= clauses #seg_count #segs_ok #segs_out of build_pass_1) ==> segs_wf2 (the '
+    'precondition of build_pass_2) and, per prefix, total2(handed-over items) == total(source items): pass 2 emits every item at the address '
+    'pass 1 accounted for it.  Still assumed there: no Operation::Custom reaches pass 2 (pass 0 expands or rejects every macro call: unit PASS0 '
+    'for the splice, macro_expand is a stub), every device memory is below 2^29 units (all table rows, checked in C12), and that '
+    'build_from_parsed hands the result of pass 1 to pass 2 unchanged (unit BUILD treats the passes as uninterpreted functions)',
     'R9 / A-alias: tables behind Rc<RefCell<..>> are modelled as one ghost record owned by the build; stubs for set_label/set_special/set_def/'
     'exist/defs.remove/sets.get/sets.insert state the HashMap semantics of context.rs (proved for the getters in unit CTX where claimed)',
     'process / Device::check_operation / GetData / Expr::run appear in PASS2 as stubs carrying the contracts proved in ENC/ENCV, DEV, DATA, EXPR',
@@ -378,10 +380,11 @@ PROPS['C02'] = dict(
                'rejects overlap and capacity overflow, and hands pass 2 the sized items; pass 2 (verbatim) is proved equal to a fold '
                'oracle: each item emitted at its own address (pc and the address passed to process are that address), fragments '
                'appended after zero-filled gaps at 2*address / address, nothing emitted is overwritten; emitted sizes equal the sizes '
-               'pass 1 accounted for (bridges from ENCV #length/#words and DATA #len_*).',
-    level_note='parser/segment creation assumed (witnesses); pass1->pass2 composition by matching clauses; `.org 0` after code is a recorded finding',
+               'pass 1 accounted for (bridges from ENCV #length/#words and DATA #len_*); unit LINK proves that what pass 1 guarantees '
+               'implies what pass 2 requires and that both passes agree on the address of every item.',
+    level_note='parser/segment creation: unit DIR #org #seg_switch + witnesses; `.org 0` after code is a recorded finding',
     technique='Verus loop invariants on extracted pass_1_internal/build_pass_1/pass_2_internal/build_pass_2 against recursive layout and fold oracles',
-    verus=['pass1', 'pass2', 'data', 'encv'],
+    verus=['pass1', 'pass2', 'link', 'data', 'encv'],
     witnesses=witnesses_layout,
     functions=['builder::pass1::{build_pass_1, pass_1_internal, next_address}', 'builder::pass2::{build_pass_2, pass_2_internal}',
                'directive::{Operand::*, GetData for Vec<Operand>}', 'instruction::process (length), Operation::info'],
@@ -515,6 +518,11 @@ def witnesses_c10(tier, seed):
         ('undef_unknown_fails', '.undef nothing\n', 'error'),
         ('label_value_not_zero', ' nop\n nop\nl: .dw l\n', dict(code='000000000200')),
         ('equ_chain', '.equ a = b + 1\n.equ b = 2\n.db a, b\n', dict(code='0302')),
+        ('set_reassigned_in_dseg', '.set n = 1\n.dseg\n.set n = 2\nv: .byte 1\n.cseg\n.db n, 0\n', dict(code='0200')),
+        ('def_made_in_eseg', '.eseg\n.def t = r18\n.db 1\n.cseg\n ldi t, 1\n', dict(code='21e0')),
+        ('undef_in_dseg_then_use_fails', '.def t = r18\n.dseg\n.undef t\n.cseg\n ldi t, 1\n', 'error'),
+        ('label_in_two_memories_fails', '.dseg\nbuf: .byte 2\n.cseg\nbuf: nop\n', 'error'),
+        ('set_sees_latest_preceding', '.set k = 5\n.db k, 0\n.set k = k * 2\n.db k, 0\n.set K = k + 1\n.db k, 0\n', dict(code='05000a000b00')),
     ]
     res = replay.run_jobs(['build\n' + c[1] for c in cases])
     out = []
@@ -604,6 +612,8 @@ def witnesses_c15(tier, seed):
             # keep the .if/.endif pair of the base balanced around the insertion
             jobs.append('build\n' + '\n'.join(lines) + '\n')
             meta.append((name, pos + 1))
+    msgs_only = '.message "alpha"\n.if 1\n.warning "beta"\n.endif\n.equ x = 1\n'
+    jobs.append('build\n' + msgs_only)
     msgs = 'nop\n.message "one"\n.if 0\n.message "hidden"\n.error "hidden too"\n.else\n.warning "two"\n.endif\nnop\n.message "three"\n'
     jobs.append('build\n' + msgs)
     res = replay.run_jobs(jobs)
@@ -612,6 +622,9 @@ def witnesses_c15(tier, seed):
         ok = r.get('status') == 'err' and re.search(r'line: %d\b' % line_no, r.get('err', '')) is not None
         out.append(WitnessResult('fault:%s@line%d' % (name, line_no), job, ok, dict((k, r.get(k)) for k in ('status', 'err')),
                                  'Err whose text names line %d' % line_no, 'errors/'))
+    r0 = res[-2]
+    want0 = ['info: alpha in line: 1', 'warning: beta in line: 3']
+    out.append(WitnessResult('messages_without_any_item', jobs[-2], r0.get('status') == 'ok' and r0.get('messages') == want0, dict((k, r0.get(k)) for k in ('status', 'messages', 'err')), dict(messages=want0), 'errors/'))
     r = res[-1]
     want = ['info: one in line: 2', 'warning: two in line: 7', 'info: three in line: 10']
     ok = r.get('status') == 'ok' and r.get('messages') == want and r.get('code') == '00000000'
@@ -628,7 +641,8 @@ PROPS['C15'] = dict(
     level_note='the rendering "line: N" (fmt::Display) and the message text are dropped by extraction: bound by single-fault witnesses; errors raised '
                'inside pass 0 (macro expansion) and inside an included file are not under contract',
     technique='Verus postconditions on error locations over the extracted passes / Directive::parse / parse_iter (rule R1 keeps the location)',
-    verus=['pass1', 'pass2', 'dir', 'cond', 'data', 'encv'],
+    verus=['pass1', 'pass2', 'dir', 'cond', 'data', 'encv', 'expr', 'pass0'],
+    whole_units=['expr'],     # an expression that must fail but evaluates hides the fault: every clause of EXPR counts here
     witnesses=witnesses_c15,
     functions=['pass_1_internal', 'pass_2_internal', 'build_pass_2', 'Directive::parse', 'parse_iter', 'process / GetData (no location)'],
     explanation='Error{loc} in contracts/common.vinc is the abstract view of failure::Error; R1 maps each bail! to verr_at(point) or verr_none().',
@@ -706,7 +720,7 @@ PROPS['C16'] = dict(
 # ------------------------------------------------------------------------------------------------ C09
 def witnesses_c09(tier, seed):
     import macro_sem
-    ws = macro_sem.witnesses(150 if tier == 'quick' else 1500, seed or 2)
+    ws = macro_sem.witnesses(150 if tier == 'quick' else 1500, seed or 2) + macro_sem.grouping_witnesses(120 if tier == 'quick' else 10000, seed or 2)
     jobs = []
     for a, b in ws:
         jobs += ['build\n' + a, 'build\n' + b]
@@ -717,7 +731,10 @@ def witnesses_c09(tier, seed):
     out = []
     for i, (a, b) in enumerate(ws):
         r, rf = res[2 * i], res[2 * i + 1]
-        ok = r.get('status') == 'ok' and rf.get('status') == 'ok' and r['code'] == rf['code'] and r['eeprom'] == rf['eeprom'] and r['ram_filling'] == rf['ram_filling']
+        if r.get('status') == 'ok' and rf.get('status') == 'ok':
+            ok = r['code'] == rf['code'] and r['eeprom'] == rf['eeprom'] and r['ram_filling'] == rf['ram_filling']
+        else:
+            ok = r.get('status') == 'err' and rf.get('status') == 'err'      # both fail the build (e.g. a zero divisor in the argument)
         out.append(WitnessResult('macro:%d' % i, 'build\n' + a, ok, dict(with_macros=dict((k, r.get(k)) for k in ('status', 'code', 'err')), hand_expanded=dict((k, rf.get(k)) for k in ('status', 'code', 'err'))),
                                  'same images as the hand-expanded program', 'macro/'))
     for (name, job, want), r in zip(fixed, res[2 * len(ws):]):
